@@ -49,6 +49,7 @@ def apply(which=("time", "canon-json", "serialize_json_safe", "stable_equal", "s
             pp.time = _FakeTime()
             orch.time = _FakeTime()
         elif w == "canon-json":
+            ORIG["canon-json"] = gb.json
             ctr = itertools.count()
 
             class _FakeJson:
@@ -58,6 +59,7 @@ def apply(which=("time", "canon-json", "serialize_json_safe", "stable_equal", "s
 
             gb.json = _FakeJson()
         elif w == "serialize_json_safe":
+            ORIG["serialize_json_safe"] = orch.serialize_json_safe
             orch.serialize_json_safe = lambda o: o
         elif w == "stable_equal":
             ORIG["stable_equal"] = dc._stable_equal
@@ -66,8 +68,10 @@ def apply(which=("time", "canon-json", "serialize_json_safe", "stable_equal", "s
             for c in (nn._DataNode, nn._ProbeContextInjectorNode, nn._ContextProcessorNode):
                 c.__str__ = lambda self: "node"
         elif w == "semantic_id":
+            ORIG["semantic_id"] = sc._SemantivaComponent.__dict__["semantic_id"]
             sc._SemantivaComponent.semantic_id = classmethod(lambda cls: cls.__name__)
         elif w == "sha256_json":
+            ORIG["sha256_json"] = sid._sha256_json
             sid._sha256_json = lambda obj: "digest"
         elif w == "env_pins":
             import platform as _pl
@@ -117,3 +121,29 @@ def apply(which=("time", "canon-json", "serialize_json_safe", "stable_equal", "s
 
 def described(which) -> List[str]:
     return [DESCRIPTIONS[w] for w in which]
+
+
+import contextlib
+
+
+@contextlib.contextmanager
+def suspended(which=("canon-json", "serialize_json_safe", "stable_equal", "semantic_id", "sha256_json")):
+    """Temporarily restore the real implementations (for obligations that run concretely under NoTracing)."""
+    import semantiva.core.semantiva_component as sc
+    import semantiva.execution.orchestrator.orchestrator as orch
+    import semantiva.metadata.semantic_id as sid
+    import semantiva.pipeline.graph_builder as gb
+    import semantiva.trace.delta_collector as dc
+
+    slots = {"canon-json": (gb, "json"), "serialize_json_safe": (orch, "serialize_json_safe"), "stable_equal": (dc, "_stable_equal"), "semantic_id": (sc._SemantivaComponent, "semantic_id"), "sha256_json": (sid, "_sha256_json")}
+    saved = []
+    for w in which:
+        if w in ORIG:
+            obj, attr = slots[w]
+            saved.append((obj, attr, obj.__dict__[attr] if isinstance(obj, type) else getattr(obj, attr)))
+            setattr(obj, attr, ORIG[w])
+    try:
+        yield
+    finally:
+        for obj, attr, val in saved:
+            setattr(obj, attr, val)
